@@ -26,6 +26,10 @@ const SPACES: &[&str] = &[" ", "  ", "\t", "\u{a0}", "\u{2028}", "\u{3000}", "\u
 const NONASCII: &[&str] = &["ünï", "λόγος", "Ж", "名前", "ß", "İ", "Ünï", "Éa", "ǅ", "ſ", "é's", "Ωmega", "naïve", "ＡＢ"];
 const NUMERIC_NONASCII: &[&str] = &["²", "٣", "½", "Ⅷ", "٣٤", "²x", "x²", "５"];
 const ODD: &[&str] = &["\0", "\u{1}", "🎸", "\u{7f}", "\u{200b}", "\u{feff}", "e\u{301}", "\u{301}"];
+/// letters whose lower/upper-case mapping changes the UTF-8 length or the number of characters (Kelvin, Ohm and
+/// Angstrom signs, capital sharp s, dotted capital I, Ⱥ Ⱦ, ligatures, titlecase digraphs, final sigma ...): byte offsets
+/// computed on a re-cased copy do not fit the original
+const CASEY: &[&str] = &["\u{212a}", "\u{2126}", "\u{212b}", "ẞ", "İ", "Ⱥ", "Ⱦ", "ı", "ſ", "ΐ", "ŉ", "ǰ", "ﬁ", "ﬃ", "ς", "Σ", "ǅ", "ᾼ", "ß", "a", "s", "R", "e"];
 const SUFFIXY: &[&str] = &["'n'", "'s", "'re", "'S", "'RE", "'n", "n'", "'N'", " 'n' ", "'s's", "'re's"];
 
 fn recase(w: &str, t: &mut Tape) -> String {
@@ -43,9 +47,28 @@ fn recase(w: &str, t: &mut Tape) -> String {
     }
 }
 
+/// a word of 1-5 case-mapping-sensitive letters, half of the time with an apostrophe suffix glued on
+pub fn casey_word(t: &mut Tape) -> String {
+    let n = 1 + t.pick(5);
+    let mut w = String::new();
+    for _ in 0..n {
+        w.push_str(*t.choose(CASEY));
+        if t.chance(1, 12) {
+            w.push('\'');
+        }
+    }
+    match t.pick(8) {
+        0 | 1 => w.push_str("'s"),
+        2 => w.push_str("'re"),
+        3 => w.push_str(*t.choose(SUFFIXY)),
+        _ => {}
+    }
+    w
+}
+
 pub fn fragment(t: &mut Tape) -> String {
     let all_kw = kw::all_aliases();
-    match t.weighted(&[30, 14, 8, 4, 10, 6, 6, 10, 4, 3, 2, 2, 3]) {
+    match t.weighted(&[30, 14, 8, 4, 10, 6, 6, 10, 4, 3, 2, 2, 3, 3]) {
         0 => recase(all_kw[t.pick(all_kw.len())], t),
         1 => t.choose(WORDS).to_string(),
         2 => t.choose(NUMBERS).to_string(),
@@ -58,13 +81,14 @@ pub fn fragment(t: &mut Tape) -> String {
         9 => t.choose(NONASCII).to_string(),
         10 => t.choose(NUMERIC_NONASCII).to_string(),
         11 => t.choose(ODD).to_string(),
-        _ => t.choose(SUFFIXY).to_string(),
+        12 => t.choose(SUFFIXY).to_string(),
+        _ => casey_word(t),
     }
 }
 
 /// weighted towards the shapes that position bookkeeping gets wrong
 pub fn fragment_lexy(t: &mut Tape) -> String {
-    match t.weighted(&[20, 10, 10, 6, 6, 6, 4, 4]) {
+    match t.weighted(&[20, 10, 10, 6, 6, 6, 4, 4, 3]) {
         0 => fragment(t),
         1 => t.choose(QUOTED).to_string(),
         2 => t.choose(COMMENTS).to_string(),
@@ -72,7 +96,8 @@ pub fn fragment_lexy(t: &mut Tape) -> String {
         4 => t.choose(NONASCII).to_string(),
         5 => t.choose(NEWLINES).to_string(),
         6 => t.choose(BAD_IDS).to_string(),
-        _ => t.choose(WORDS).to_string(),
+        7 => t.choose(WORDS).to_string(),
+        _ => casey_word(t),
     }
 }
 
